@@ -209,6 +209,27 @@ fn gen_sid(rng: &mut Rng, nstreams: usize, invalid_permille: u64) -> usize {
 
 /// A random history over the five writer operations (see the module doc of DESIGN C13).
 pub fn gen_history(rng: &mut Rng, cfg: &GenCfg) -> Vec<Op> {
+    // Bulk mode (what the compressor does: hundreds of buffered parts over several streams, one
+    // flush at the end): many parts per stream inside ONE flush, buffered out of stream-id order.
+    if rng.chance(1, 5) {
+        let ns = rng.range(2, 8) as usize;
+        let mut ops: Vec<Op> = (0..ns).map(|_| Op::Reg(gen_name(rng))).collect();
+        let total = rng.range(25, 150) as usize;
+        let flush_mid = if rng.chance(1, 3) { Some(rng.below(total as u64) as usize) } else { None };
+        for i in 0..total {
+            let sid = rng.below(ns as u64) as usize;
+            let len = if rng.chance(1, 12) { 0 } else { rng.range(1, 24) as usize };
+            ops.push(Op::Buf(sid, gen_data(rng, len), if rng.chance(1, 6) { gen_u64(rng) } else { i as u64 }));
+            if flush_mid == Some(i) {
+                ops.push(Op::Flush);
+            }
+            if rng.chance(1, 25) {
+                ops.push(Op::Add(sid, gen_data(rng, 5), i as u64));
+            }
+        }
+        ops.push(Op::Flush);
+        return ops;
+    }
     let nops = if rng.chance(1, 3) { rng.range(1, 12.min(cfg.max_ops)) } else { rng.range(1, cfg.max_ops) } as usize;
     let mut names: Vec<Vec<u8>> = vec![];
     let mut ops: Vec<Op> = vec![];
